@@ -1,3 +1,243 @@
 package main
 
-func workerMain() {}
+import (
+	"bufio"
+	"crypto/sha256"
+	"encoding/hex"
+	"encoding/json"
+	"fmt"
+	"os"
+	"os/exec"
+	"path/filepath"
+	"strings"
+	"time"
+
+	"github.com/jsightapi/jsight-api-go-library/directive"
+)
+
+// Worker: the real library in a child process (a fatal error — stack overflow, out of memory — or a hang
+// cannot be recovered in-process). One JSON request per line, one JSON response per line.
+
+type WorkReq struct {
+	Files  map[string]string `json:"files"` // name -> hex
+	Root   string            `json:"root"`
+	Banned []int             `json:"banned,omitempty"`
+}
+
+type WorkResp struct {
+	Verdict  string   `json:"verdict"`
+	Panic    string   `json:"panic,omitempty"`
+	Stack    string   `json:"stack,omitempty"`
+	Err      *ErrInfo `json:"err,omitempty"`
+	JSONSum  string   `json:"json_sum,omitempty"`
+	JSONLen  int      `json:"json_len,omitempty"`
+	LibFault string   `json:"lib_fault,omitempty"`
+}
+
+func reqOf(p Project) WorkReq {
+	r := WorkReq{Files: map[string]string{}, Root: p.Root}
+	for k, v := range p.Files {
+		r.Files[k] = hex.EncodeToString(v)
+	}
+	for _, b := range p.Banned {
+		r.Banned = append(r.Banned, int(b))
+	}
+	return r
+}
+
+func projectOf(r WorkReq) Project {
+	p := Project{Files: map[string][]byte{}, Root: r.Root}
+	for k, v := range r.Files {
+		b, _ := hex.DecodeString(v)
+		p.Files[k] = b
+	}
+	for _, b := range r.Banned {
+		p.Banned = append(p.Banned, directive.Enumeration(b))
+	}
+	return p
+}
+
+func respOf(res RunResult) WorkResp {
+	w := WorkResp{Verdict: res.Verdict(), Panic: res.Panic, Err: res.Err}
+	if res.Panic != "" {
+		w.Stack = trunc(res.Stack, 3000)
+	}
+	if res.JSON != nil {
+		h := sha256.Sum256(res.JSON)
+		w.JSONSum = hex.EncodeToString(h[:8])
+		w.JSONLen = len(res.JSON)
+	}
+	return w
+}
+
+func workerMain() {
+	in := bufio.NewReaderSize(os.Stdin, 1<<22)
+	out := bufio.NewWriter(os.Stdout)
+	for {
+		line, err := in.ReadString('\n')
+		if len(line) > 0 {
+			var req WorkReq
+			if json.Unmarshal([]byte(line), &req) == nil {
+				res := RunProject(projectOf(req), false)
+				b, _ := json.Marshal(respOf(res))
+				out.Write(b)
+				out.WriteByte('\n')
+				out.Flush()
+			}
+		}
+		if err != nil {
+			return
+		}
+	}
+}
+
+// workerExe overrides the worker binary (the tracing build).
+var workerExe string
+
+// TraceLibFault re-runs one project with the tracing build (library handler re-raises runtime faults)
+// and returns the top frames: (frame in /repo, frame in the schema library).
+func TraceLibFault(p Project) (string, string, string) {
+	tr := filepath.Join(verifDir(), "bin", "jsv-trace")
+	if _, err := os.Stat(tr); err != nil {
+		return "", "", ""
+	}
+	old := workerExe
+	workerExe = tr
+	defer func() { workerExe = old }()
+	out := make([]WorkerResult, 1)
+	runBatch([]Project{p}, out, 10*time.Second)
+	if out[0].Resp == nil || out[0].Resp.Panic == "" {
+		return "", "", ""
+	}
+	repo, lib := topFrames(out[0].Resp.Stack)
+	return repo, lib, out[0].Resp.Stack
+}
+
+// WorkerResult of one project run in a child process.
+type WorkerResult struct {
+	Resp    *WorkResp
+	Crashed string // non-empty: the process died (fatal error / signal) or timed out; holds the reason + stderr tail
+}
+
+// RunInWorkers runs the projects in child processes (batches; a batch whose process dies is re-run one
+// by one to find the culprit).
+func RunInWorkers(projects []Project, perDoc time.Duration) []WorkerResult {
+	out := make([]WorkerResult, len(projects))
+	const batch = 200
+	type job struct{ lo, hi int }
+	var jobs []job
+	for lo := 0; lo < len(projects); lo += batch {
+		hi := lo + batch
+		if hi > len(projects) {
+			hi = len(projects)
+		}
+		jobs = append(jobs, job{lo, hi})
+	}
+	parallelFor(len(jobs), func(j int) {
+		lo, hi := jobs[j].lo, jobs[j].hi
+		if !runBatch(projects[lo:hi], out[lo:hi], perDoc*time.Duration(hi-lo)+5*time.Second) {
+			for i := lo; i < hi; i++ {
+				if out[i].Resp == nil {
+					runBatch(projects[i:i+1], out[i:i+1], perDoc+3*time.Second)
+					if out[i].Resp == nil && out[i].Crashed == "" {
+						out[i].Crashed = "no response"
+					}
+				}
+			}
+		}
+	})
+	return out
+}
+
+// runBatch returns false if the process died or timed out before answering everything.
+func runBatch(projects []Project, out []WorkerResult, limit time.Duration) bool {
+	exe, _ := os.Executable()
+	if workerExe != "" {
+		exe = workerExe
+	}
+	cmd := exec.Command(exe, "worker")
+	cmd.Env = append(os.Environ(), "GOMEMLIMIT=2GiB", "GOMAXPROCS=2")
+	if workerExe != "" {
+		cmd.Env = append(cmd.Env, "JSV_TRACE=1")
+	}
+	stdin, _ := cmd.StdinPipe()
+	stdout, _ := cmd.StdoutPipe()
+	var stderr strings.Builder
+	cmd.Stderr = &limitedWriter{b: &stderr, n: 6000}
+	if err := cmd.Start(); err != nil {
+		return false
+	}
+	done := make(chan int, 1)
+	go func() {
+		w := bufio.NewWriter(stdin)
+		for _, p := range projects {
+			b, _ := json.Marshal(reqOf(p))
+			w.Write(b)
+			w.WriteByte('\n')
+		}
+		w.Flush()
+		stdin.Close()
+	}()
+	go func() {
+		sc := bufio.NewReaderSize(stdout, 1<<20)
+		n := 0
+		for n < len(projects) {
+			line, err := sc.ReadString('\n')
+			if len(line) > 1 {
+				var r WorkResp
+				if json.Unmarshal([]byte(line), &r) == nil {
+					out[n].Resp = &r
+					n++
+				}
+			}
+			if err != nil {
+				break
+			}
+		}
+		done <- n
+	}()
+	var n int
+	timedOut := false
+	select {
+	case n = <-done:
+	case <-time.After(limit):
+		timedOut = true
+		_ = cmd.Process.Kill()
+		n = <-done
+	}
+	err := cmd.Wait()
+	if n == len(projects) {
+		return true
+	}
+	// the first unanswered project is the one the process died on (when run alone)
+	if len(projects) == 1 {
+		reason := "process exited"
+		if timedOut {
+			reason = fmt.Sprintf("timeout after %s", limit)
+		} else if err != nil {
+			reason = err.Error()
+		}
+		out[0].Crashed = reason + "; stderr: " + trunc(firstLines(stderr.String(), 12), 1500)
+	}
+	return false
+}
+
+type limitedWriter struct {
+	b *strings.Builder
+	n int
+}
+
+func (l *limitedWriter) Write(p []byte) (int, error) {
+	if l.b.Len() < l.n {
+		l.b.Write(p)
+	}
+	return len(p), nil
+}
+
+func firstLines(s string, n int) string {
+	ll := strings.Split(s, "\n")
+	if len(ll) > n {
+		ll = ll[:n]
+	}
+	return strings.Join(ll, "\n")
+}
